@@ -26,6 +26,7 @@ type family struct {
 	power    int
 	pairs    int
 	prefixes []int // with power > 0: index / len(letters) selects no prefix (0) or prefixes[k-1]
+	host     []int // host-mode families: every word starts with one of these host-mode letters (index / words-per-mode)
 	count    int64
 	exits    map[int]bool // sub-alphabet positions of proc_exit letters
 }
@@ -33,6 +34,7 @@ type family struct {
 type space struct {
 	nMain    int
 	nList    int
+	nHost    int
 	alpha    []letter
 	families []family
 	total    int64
@@ -41,8 +43,14 @@ type space struct {
 func newSpace(tier string) *space {
 	s := &space{alpha: buildAlphabet()}
 	var all, core []int
-	var lists, prefixes []int
+	var lists, prefixes, hosts, single []int
 	for i, l := range s.alpha {
+		if l.Host {
+			hosts = append(hosts, i)
+		}
+		if l.Main || l.List {
+			single = append(single, i)
+		}
 		if l.Main {
 			all = append(all, i)
 		}
@@ -83,6 +91,16 @@ func newSpace(tier string) *space {
 	// poll-list family (both tiers): [nothing | fd_close(0) | fd_close(1)] followed by the list letter x6.
 	s.families = append(s.families, family{name: "[-|fd_close(0)|fd_close(1)] poll-list-letter^6", letters: lists, prefixes: prefixes, power: 6,
 		count: int64(len(lists)) * int64(1+len(prefixes))})
+	// host-mode families (both tiers): host-mode letter, then every main / poll-list letter twice; host-mode
+	// letter, then every ordered pair of core (thorough: main) letters.
+	s.nHost = len(hosts)
+	nh := int64(len(hosts))
+	s.families = append(s.families, family{name: "host-mode (main-or-poll-list-letter)^2", letters: single, host: hosts, power: 2, count: nh * int64(len(single))})
+	if tier == "thorough" {
+		s.families = append(s.families, family{name: "host-mode main-letter main-letter", letters: all, host: hosts, depth: 2, count: nh * int64(len(all)) * int64(len(all))})
+	} else {
+		s.families = append(s.families, family{name: "host-mode core-letter core-letter", letters: core, host: hosts, depth: 2, count: nh * nc * nc})
+	}
 	for _, f := range s.families {
 		s.total += f.count
 	}
@@ -100,6 +118,30 @@ func (s *space) word(i int64, buf []int) []int {
 			continue
 		}
 		buf = buf[:0]
+		if len(f.host) > 0 {
+			n := int64(len(f.letters))
+			per := n
+			if f.depth == 2 {
+				per = n * n
+			}
+			buf = append(buf, f.host[i/per])
+			r := i % per
+			if f.depth == 2 {
+				a, b := f.letters[r/n], f.letters[r%n]
+				buf = append(buf, a)
+				if s.alpha[a].Fn == "proc_exit" { // the second letter is never executed: keep one spelling
+					if r%n != 0 {
+						return nil
+					}
+					return buf
+				}
+				return append(buf, b)
+			}
+			for k := 0; k < f.power; k++ {
+				buf = append(buf, f.letters[r])
+			}
+			return buf
+		}
 		if f.power > 0 {
 			n := int64(len(f.letters))
 			if pk := i / n; pk > 0 {
@@ -190,32 +232,45 @@ type worker struct {
 	// shapeB selects how instance B of every engine reaches the WASI imports (instance A is always
 	// direct): shapeFF, shapeA5, or -1 = alternate FF/A5 from call to call.
 	shapeB int
+	env    int // index of the host environment (selects the context kinds of words without a host-mode letter)
 	ctx    context.Context
-	rts    [2]wazero.Runtime
-	codes  [2]wazero.CompiledModule
+	ctxs   [nCtxKinds]context.Context // one long-lived context per kind (hostmode.go)
+	unctx  func()
+	rts    [nRTFlavors][2]wazero.Runtime
+	codes  [nRTFlavors][2]wazero.CompiledModule
 	alpha  []letter
+	slot   callSlot // the call in flight, for the child's call watchdog
 }
 
-func newWorker(alpha []letter, guest []byte, shapeB int) (*worker, error) {
-	w := &worker{ctx: context.Background(), alpha: alpha, shapeB: shapeB}
-	for e, cfg := range []wazero.RuntimeConfig{wazero.NewRuntimeConfigCompiler(), wazero.NewRuntimeConfigInterpreter()} {
-		rt := wazero.NewRuntimeWithConfig(w.ctx, cfg)
-		if _, err := wasi_snapshot_preview1.Instantiate(w.ctx, rt); err != nil {
-			return nil, fmt.Errorf("wasi (%s): %v", engineNames[e], err)
+func newWorker(alpha []letter, guest []byte, envID string) (*worker, error) {
+	w := &worker{ctx: context.Background(), alpha: alpha, shapeB: shapeModeOf(envID), env: envIndexOf(envID)}
+	w.ctxs, w.unctx = makeContexts()
+	for f := 0; f < nRTFlavors; f++ {
+		for e, cfg := range []wazero.RuntimeConfig{wazero.NewRuntimeConfigCompiler(), wazero.NewRuntimeConfigInterpreter()} {
+			if f == rtCloseOnDone {
+				cfg = cfg.WithCloseOnContextDone(true)
+			}
+			rt := wazero.NewRuntimeWithConfig(w.ctx, cfg)
+			if _, err := wasi_snapshot_preview1.Instantiate(w.ctx, rt); err != nil {
+				return nil, fmt.Errorf("wasi (%s, runtime %s): %v", engineNames[e], rtFlavorNames[f], err)
+			}
+			code, err := rt.CompileModule(w.ctx, guest)
+			if err != nil {
+				return nil, fmt.Errorf("guest rejected (%s, runtime %s): %v", engineNames[e], rtFlavorNames[f], err)
+			}
+			w.rts[f][e], w.codes[f][e] = rt, code
 		}
-		code, err := rt.CompileModule(w.ctx, guest)
-		if err != nil {
-			return nil, fmt.Errorf("guest rejected (%s): %v", engineNames[e], err)
-		}
-		w.rts[e], w.codes[e] = rt, code
 	}
 	return w, nil
 }
 
 func (w *worker) close() {
-	for _, rt := range w.rts {
-		rt.Close(w.ctx)
+	for _, rts := range w.rts {
+		for _, rt := range rts {
+			rt.Close(w.ctx)
+		}
 	}
+	w.unctx()
 }
 
 type inst struct {
@@ -229,21 +284,34 @@ type inst struct {
 // the same time, created from one wazero.NewModuleConfig() value and stepped alternately. Instance A
 // calls the export wrappers directly, instance B goes through the hostile-stack shapes (alphabet.go).
 // It returns the four traces in instNames order.
+//
+// The host side (hostmode.go): the runtime flavour is the host-mode letter's (default without one); the
+// context handed to InstantiateModule and to every Call is of kind ctxKindAt(host letter, environment,
+// instance, step).
 func (w *worker) runWord(word []int) (out [4][]byte, err error) {
+	host, calls := hostOf(w.alpha, word)
+	rt := rtDefault
+	if host != nil {
+		rt = host.HostRT
+	}
 	for e := 0; e < 2; e++ {
 		var is [2]*inst
 		cfg := wazero.NewModuleConfig() // A and B are created from the SAME configuration value
 		for k := 0; k < 2; k++ {
-			mod, ierr := w.rts[e].InstantiateModule(w.ctx, w.codes[e], cfg)
+			kind := ctxKindAt(host, w.env, 2*e+k, 0)
+			mod, ierr := w.rts[rt][e].InstantiateModule(w.ctxs[kind], w.codes[rt][e], cfg)
 			if ierr != nil {
-				return out, fmt.Errorf("instantiate (%s): %v", engineNames[e], ierr)
+				return out, fmt.Errorf("instantiate (%s, runtime %s, host context %s): %v", engineNames[e], rtFlavorNames[rt], ctxKindNames[kind], ierr)
 			}
-			is[k] = &inst{mod: mod, mem: mod.Memory(), tr: make([]byte, 0, len(word)*(5+winSize))}
+			is[k] = &inst{mod: mod, mem: mod.Memory(), tr: make([]byte, 0, len(calls)*(5+winSize))}
 		}
-		for j, li := range word {
+		for j, li := range calls {
 			for k := 0; k < 2; k++ {
 				if !is[k].done {
-					w.stepInst(is[k], &w.alpha[li], w.shapeOf(k, j))
+					kind := ctxKindAt(host, w.env, 2*e+k, j)
+					w.slot.enter(word, j, 2*e+k, kind, rt)
+					w.stepInst(is[k], &w.alpha[li], w.shapeOf(k, j), w.ctxs[kind])
+					w.slot.leave()
 				}
 			}
 		}
@@ -287,11 +355,11 @@ func (w *worker) describeShapes() string {
 	return "instance A: " + shapeLabel[shapeDirect] + "; instance B: alternately " + shapeLabel[shapeFF] + " / " + shapeLabel[shapeA5]
 }
 
-func (w *worker) stepInst(in *inst, l *letter, shape int) {
+func (w *worker) stepInst(in *inst, l *letter, shape int, ctx context.Context) {
 	if l.Setup != nil && !in.mem.Write(pSubList, l.Setup) { // the subscription array the guest "has built" for this call
 		panic("window not writable")
 	}
-	res, err := in.mod.ExportedFunction(l.Fn+shapeSuffix[shape]).Call(w.ctx, l.Args...)
+	res, err := in.mod.ExportedFunction(l.Fn+shapeSuffix[shape]).Call(ctx, l.Args...)
 	kind, val, extra := byte(kindRet), uint32(0), ""
 	var ee *wsys.ExitError
 	switch {
@@ -365,6 +433,7 @@ func outcomeString(kind byte, val uint32) string {
 // firstDiff finds the first step at which got deviates from want (the model trace).
 func firstDiff(alpha []letter, word []int, got, want []byte) *stepDiff {
 	const rec = 5 + winSize
+	_, word = hostOf(alpha, word) // steps count calls
 	for k := 0; ; k++ {
 		g0, w0 := k*rec, k*rec
 		gEnd, wEnd := g0 >= len(got), w0 >= len(want)
